@@ -575,15 +575,27 @@ func c11check(c *an.Ctx) {
 				tr = append(tr, t.True)
 			}
 		}
-		q := &an.PathQ{Fn: fn, StartEntry: true, Sink: func(in ssa.Instruction, _ *an.PathState) bool {
+		ncalls := len(an.CallsTo(fn, ia))
+		q := &an.PathQ{Fn: fn, StartEntry: true, AllAlias: true, AllConsts: true, FullOnly: true, Sink: func(in ssa.Instruction, st *an.PathState) bool {
 			r, ok := in.(*ssa.Return)
 			if !ok {
 				return false
 			}
-			k, isC := an.Resolve(r.Results[0]).(*ssa.Const)
-			return !(isC && k.Value != nil && k.Value.String() == "false")
+			isFalse := func(k *ssa.Const) bool { return k != nil && k.Value != nil && k.Value.String() == "false" }
+			v := an.Resolve(r.Results[0])
+			if k, isC := v.(*ssa.Const); isC && isFalse(k) {
+				return false
+			}
+			if k, known := st.ConstOf(v); known && isFalse(k) {
+				return false
+			}
+			// `return allowed` where allowed is what the last grant asked answered
+			if call, isCall := an.Resolve(st.Selected(v)).(*ssa.Call); isCall && an.IsCallTo(call, ia) {
+				return false
+			}
+			return true
 		}, CutEdge: func(e an.Edge, _ *an.PathState) bool { return an.EdgeIn(e, tr) }}
 		_, f := q.Find()
-		c.Check(!f && len(tr) > 0, fn, "state allows only what one of its grants allows", fn.Pos(), "", "State.IsAllowed can return true without any Authorization allowing the topic/channel")
+		c.Check(!f && ncalls > 0, fn, "state allows only what one of its grants allows", fn.Pos(), "", "State.IsAllowed can return true without any Authorization allowing the topic/channel")
 	}
 }
